@@ -22,7 +22,11 @@ SPECS_T = SPECS_Q + [[6], [2, '/', 2, '=', 1], ['n1/kb', 1, 2], ['tb/', 2, '=', 
 
 LINES_Q = [[[5]], [[3], [3]], [['<', 2, '>'], [3], ['</', 2, '>']], [['<', 2, ' ', 2, '/>']],
            [['%', 4]], [['<ta n>'], [4], ['</ta>']], [['<ta n>'], ['ka ', 2], ['</t', 1, '>']],
-           [[2, ' $', 2]], [['%define ', 2, ' ', 2], ['kt $', 2]], [['<', 3, '/>'], ['<', 3, '/>']]]
+           [[2, ' $', 2]], [['%define ', 2, ' ', 2], ['kt $', 2]], [['<', 3, '/>'], ['<', 3, '/>']],
+           # vocabulary-sized tokens: two sections reaching one slot, repeated keys, nested repeats
+           [['<', 2, '/>'], ['<', 2, '/>']], [['<', 2, ' ', 2, '/>'], ['<', 2, ' ', 2, '/>']],
+           [['<', 2, '>'], ['</', 2, '>'], ['<', 2, ' ', 1, '/>']], [[2, ' ', 1], [2, ' ', 1]],
+           [['<ta n>'], ['ka 1'], [2, ' ', 1], [2, ' ', 1], ['</ta>']]]
 LINES_T = LINES_Q + [[[7]], [[4], [4]], [['<', 4, '>'], [2], ['</', 3, '>']], [['%include ', 3]],
                      [['%import ', 4]], [['<ta n>'], [5], ['</ta>'], [3]]]
 
